@@ -28,7 +28,15 @@
 (*       returned before the stop - for phout each of them must be a line, *)
 (*       for jsonlines the unwritten ones must be covered by counted drops *)
 (*       - and (LateBounded) once cancel() has returned an instance reports *)
-(*       at most the one shot it has in flight.                            *)
+(*       at most the one shot it has in flight;                            *)
+(*   Shutdown!TimeoutExitFlushed, in process (mode "hang"): the run is     *)
+(*       cancelled from outside while every instance is inside a shot that *)
+(*       does not come back (the gun watches no context).  The aggregator  *)
+(*       runs on the run context: its Run returns (AggReturned; sink       *)
+(*       closed, every report that had returned is written or counted)     *)
+(*       while the shots still hang - not only when the driver lets them   *)
+(*       come back (Release): cli.go would have given up waiting and       *)
+(*       exited by then.                                                   *)
 (***************************************************************************)
 EXTENDS TraceAggregator
 
@@ -37,35 +45,36 @@ VARIABLES stop,      \* "" | "self" (AllInstancesFinished) | "ext" (Cancel / Poo
           must, nmust, \* bag / number of reports returned before a stop from outside and not yet seen in the sink
           ctxDone, lateG, \* mode "cancel": cancel() has returned; instances that reported after that
           started, awaitedI, allFin, aggAwaited, waitDone,
+          aggRet,    \* mode "hang": the driver has seen the aggregator's Run return
           bad2
 
-pvars == <<stop, nret, must, nmust, ctxDone, lateG, started, awaitedI, allFin, aggAwaited, waitDone, bad2>>
+pvars == <<stop, nret, must, nmust, ctxDone, lateG, started, awaitedI, allFin, aggAwaited, waitDone, aggRet, bad2>>
 avars == <<kind, ids, mode, before, pending, nrep, nmatched, nwritten, cancelled, closed, ended, bad, fault, faulted>>
 
 PInit == /\ Init
          /\ stop = "" /\ nret = 0 /\ must = <<>> /\ nmust = 0 /\ ctxDone = FALSE /\ lateG = {} /\ started = -1 /\ awaitedI = 0
-         /\ allFin = FALSE /\ aggAwaited = FALSE /\ waitDone = FALSE /\ bad2 = {}
+         /\ allFin = FALSE /\ aggAwaited = FALSE /\ waitDone = FALSE /\ aggRet = FALSE /\ bad2 = {}
 
 \* ---- bookkeeping that accompanies the actions of TraceAggregator -------------------------------------
 BkRun == /\ stop' = "" /\ nret' = 0 /\ must' = <<>> /\ nmust' = 0 /\ ctxDone' = FALSE /\ lateG' = {} /\ started' = -1 /\ awaitedI' = 0
-         /\ allFin' = FALSE /\ aggAwaited' = FALSE /\ waitDone' = FALSE /\ UNCHANGED bad2
+         /\ allFin' = FALSE /\ aggAwaited' = FALSE /\ waitDone' = FALSE /\ aggRet' = FALSE /\ UNCHANGED bad2
 BkReport == /\ lateG' = IF ctxDone THEN lateG \cup {Ev.g} ELSE lateG
             /\ bad2' = bad2 \cup Flag(~allFin, "ReportAfterAllInstancesFinished")
                             \* PoolAgg!LateBounded: once the context is done an instance reports at most the shot in flight
                             \cup Flag(~(ctxDone /\ Ev.g \in lateG), "SecondReportAfterContextDone")
-            /\ UNCHANGED <<stop, nret, must, nmust, ctxDone, started, awaitedI, allFin, aggAwaited, waitDone>>
+            /\ UNCHANGED <<stop, nret, must, nmust, ctxDone, started, awaitedI, allFin, aggAwaited, waitDone, aggRet>>
 BkLine(x) == /\ IF Has(must, x) THEN must' = [must EXCEPT ![x] = @ - 1] /\ nmust' = nmust - 1
                                 ELSE UNCHANGED <<must, nmust>>
              /\ bad2' = bad2 \cup Flag(~waitDone, "LineAfterWaitDone")
-             /\ UNCHANGED <<stop, nret, ctxDone, lateG, started, awaitedI, allFin, aggAwaited, waitDone>>
+             /\ UNCHANGED <<stop, nret, ctxDone, lateG, started, awaitedI, allFin, aggAwaited, waitDone, aggRet>>
 BkCancel == /\ stop' = IF stop = "" THEN "ext" ELSE stop
-            /\ UNCHANGED <<nret, must, nmust, ctxDone, lateG, started, awaitedI, allFin, aggAwaited, waitDone, bad2>>
+            /\ UNCHANGED <<nret, must, nmust, ctxDone, lateG, started, awaitedI, allFin, aggAwaited, waitDone, aggRet, bad2>>
 BkRunEnd == /\ bad2' = bad2 \cup Flag(nmust <= Ev.dropped /\ (kind = "phout" => nmust = 0), "ReportReturnedBeforeStopLost")
                           \cup Flag(waitDone /\ aggAwaited /\ allFin, "EngineWaitReturnedEarly")
-            /\ UNCHANGED <<stop, nret, must, nmust, ctxDone, lateG, started, awaitedI, allFin, aggAwaited, waitDone>>
+            /\ UNCHANGED <<stop, nret, must, nmust, ctxDone, lateG, started, awaitedI, allFin, aggAwaited, waitDone, aggRet>>
 BkNone == UNCHANGED pvars
 Cancelled == /\ Ev.ev = "Cancelled" /\ ctxDone' = TRUE
-             /\ UNCHANGED <<stop, nret, must, nmust, lateG, started, awaitedI, allFin, aggAwaited, waitDone, bad2, avars>>
+             /\ UNCHANGED <<stop, nret, must, nmust, lateG, started, awaitedI, allFin, aggAwaited, waitDone, aggRet, bad2, avars>>
 
 \* ---- the new events -------------------------------------------------------------------------------------
 ReportRet == /\ Ev.ev = "ReportRet"
@@ -74,14 +83,28 @@ ReportRet == /\ Ev.ev = "ReportRet"
                 ELSE IF Has(pending, Expect(Ev.s))      \* not yet written: it is in the queue or counted as dropped
                 THEN must' = AddN(must, Expect(Ev.s), 1) /\ nmust' = nmust + 1
                 ELSE UNCHANGED <<must, nmust>>
-             /\ UNCHANGED <<stop, ctxDone, lateG, started, awaitedI, allFin, aggAwaited, waitDone, bad2, avars>>
+             /\ UNCHANGED <<stop, ctxDone, lateG, started, awaitedI, allFin, aggAwaited, waitDone, aggRet, bad2, avars>>
+
+\* mode "hang": the aggregator's Run has returned (seen by the driver while it still holds every shot) ...
+AggReturned == /\ Ev.ev = "AggReturned" /\ aggRet' = TRUE
+               /\ bad2' = bad2 \cup Flag(closed \/ kind \in NoFile, "AggregatorReturnedBeforeSinkClosed")
+                               \* everything whose Report had returned before the stop is in the sink (or a counted drop
+                               \* of the dropping kind - decided at RunEnd, where the count is known)
+                               \cup Flag(kind = "phout" => nmust = 0, "ReportReturnedBeforeStopLost")
+               /\ UNCHANGED <<stop, nret, must, nmust, ctxDone, lateG, started, awaitedI, allFin, aggAwaited, waitDone, avars>>
+\* ... the driver lets the hung shots come back: by now (cli.go: 3 s / 30 s, the driver: 30 s) the aggregator has
+\* returned - it is stopped by the cancel of the run, it does not wait for the instances (Shutdown!AggStop = "run")
+Release == /\ Ev.ev = "Release"
+           /\ bad2' = bad2 \cup Flag(aggRet, "StoppedAggregatorWaitsForHungShots")
+                           \cup Flag(ctxDone /\ stop = "ext", "DriverReleaseWithoutCancel")
+           /\ UNCHANGED <<stop, nret, must, nmust, ctxDone, lateG, started, awaitedI, allFin, aggAwaited, waitDone, aggRet, avars>>
 
 Hook(h) == Ev.ev = "Hook" /\ Ev.hook = h
 HAwaitStart == /\ Hook("AwaitStart") /\ started' = Ev.n
-               /\ UNCHANGED <<stop, nret, must, nmust, ctxDone, lateG, awaitedI, allFin, aggAwaited, waitDone, bad2, avars>>
+               /\ UNCHANGED <<stop, nret, must, nmust, ctxDone, lateG, awaitedI, allFin, aggAwaited, waitDone, aggRet, bad2, avars>>
 HAwaitInstance == /\ Hook("AwaitInstance") /\ awaitedI' = awaitedI + 1
                   /\ bad2' = bad2 \cup Flag(~allFin, "InstanceAwaitedAfterAllFinished")
-                  /\ UNCHANGED <<stop, nret, must, nmust, ctxDone, lateG, started, allFin, aggAwaited, waitDone, avars>>
+                  /\ UNCHANGED <<stop, nret, must, nmust, ctxDone, lateG, started, allFin, aggAwaited, waitDone, aggRet, avars>>
 \* checkAllInstancesAreFinished: the hook is written before runCancel()
 HAllFinished == /\ Hook("AllInstancesFinished")
                 /\ allFin' = TRUE
@@ -91,22 +114,22 @@ HAllFinished == /\ Hook("AllInstancesFinished")
                                 \cup Flag(~allFin, "AllFinishedTwice")
                 \* a run that ended by itself before the stop from outside arrived lost nothing
                 /\ before' = IF before = -1 /\ stop = "" THEN nret ELSE before
-                /\ UNCHANGED <<nret, must, nmust, ctxDone, lateG, started, awaitedI, aggAwaited, waitDone>>
+                /\ UNCHANGED <<nret, must, nmust, ctxDone, lateG, started, awaitedI, aggAwaited, waitDone, aggRet>>
                 /\ UNCHANGED <<kind, ids, mode, pending, nrep, nmatched, nwritten, cancelled, closed, ended, bad, fault, faulted>>
 \* instancePool.Run returns; with an error its deferred cancel() stops instances AND aggregator (hook first)
 HPoolReturn == /\ Hook("PoolReturn")
                /\ stop' = IF stop = "" /\ Ev.err # "<nil>" THEN "ext" ELSE stop
                /\ before' = IF stop = "" /\ Ev.err # "<nil>" /\ before = -1 THEN nret ELSE before
-               /\ UNCHANGED <<nret, must, nmust, ctxDone, lateG, started, awaitedI, allFin, aggAwaited, waitDone, bad2>>
+               /\ UNCHANGED <<nret, must, nmust, ctxDone, lateG, started, awaitedI, allFin, aggAwaited, waitDone, aggRet, bad2>>
                /\ UNCHANGED <<kind, ids, mode, pending, nrep, nmatched, nwritten, cancelled, closed, ended, bad, fault, faulted>>
 HAwaitAggregator == /\ Hook("AwaitAggregator") /\ aggAwaited' = TRUE
                     /\ bad2' = bad2 \cup Flag(stop # "", "AggregatorReturnedBeforeAnyCancel")
                                     \cup Flag(closed, "AggregatorAwaitedBeforeSinkClosed")
-                    /\ UNCHANGED <<stop, nret, must, nmust, ctxDone, lateG, started, awaitedI, allFin, waitDone, avars>>
+                    /\ UNCHANGED <<stop, nret, must, nmust, ctxDone, lateG, started, awaitedI, allFin, waitDone, aggRet, avars>>
 HWaitDone == /\ Hook("WaitDone") /\ waitDone' = TRUE
              /\ bad2' = bad2 \cup Flag(aggAwaited /\ allFin /\ closed, "WaitDoneBeforeAggregatorAwaited")
                              \cup Flag(nret = nrep, "WaitDoneWithReportInFlight")
-             /\ UNCHANGED <<stop, nret, must, nmust, ctxDone, lateG, started, awaitedI, allFin, aggAwaited, avars>>
+             /\ UNCHANGED <<stop, nret, must, nmust, ctxDone, lateG, started, awaitedI, allFin, aggAwaited, aggRet, avars>>
 HOther == /\ Ev.ev = "Hook" /\ Ev.hook \in {"AwaitProvider", "ErrForwarded", "ErrSuppressed", "EngineReturn"}
           /\ UNCHANGED <<pvars, avars>>
 
@@ -119,6 +142,7 @@ PNext == /\ l <= Len(Trace)
             \/ Cancel /\ BkCancel
             \/ RunEnd /\ BkRunEnd
             \/ (BadLine \/ SinkClosed \/ Open \/ EngineEnd \/ Content) /\ BkNone
+            \/ AggReturned \/ Release
             \/ Cancelled \/ ReportRet \/ HAwaitStart \/ HAwaitInstance \/ HAllFinished \/ HPoolReturn \/ HAwaitAggregator
             \/ HWaitDone \/ HOther
 
